@@ -115,7 +115,26 @@ theorem writeBytes_EncStr (d : Dict) {s : Bytes} (hs : s.length < 2147483648) (p
         rw [Nat.mod_eq_of_lt (show s.length < 256 by omega)]
         exact this
 
-theorem writeString_none_lt {d : Dict} {s : Str} {p : Bool} (hg : d.getIndex s = none)
+/-- a primary-dictionary hit of the encoder's lookup is a real hit of `getIndex`, and not one of the markers 0..2 -/
+theorem lookup_false {d : Dict} {s : Str} {i : Nat} (h : d.lookup s = some (i, false)) :
+    d.getIndex s = some (i, false) ∧ 2 < i := by
+  unfold Dict.lookup at h
+  split at h
+  · rename_i i' hi'
+    split at h
+    · cases h
+    · cases h; exact ⟨hi', by omega⟩
+  · rename_i hn
+    exact absurd h (hn i)
+
+theorem lookup_true {d : Dict} {s : Str} {j : Nat} (h : d.lookup s = some (j, true)) :
+    d.getIndex s = some (j, true) := by
+  unfold Dict.lookup at h
+  split at h
+  · split at h <;> cases h
+  · exact h
+
+theorem writeString_none_lt {d : Dict} {s : Str} {p : Bool} (hg : d.lookup s = none)
     {a : Nat} (ha : atIndex s = some a) (h1 : a < 1) : writeString d s p = writeBytes s p := by
   rw [writeString]
   split
@@ -127,7 +146,7 @@ theorem writeString_none_lt {d : Dict} {s : Str} {p : Bool} (hg : d.getIndex s =
       rw [ha] at ha'; cases ha'
       simp [h1]
 
-theorem writeString_none_none {d : Dict} {s : Str} {p : Bool} (hg : d.getIndex s = none)
+theorem writeString_none_none {d : Dict} {s : Str} {p : Bool} (hg : d.lookup s = none)
     (ha : atIndex s = none) : writeString d s p = writeBytes s p := by
   rw [writeString]
   split
@@ -138,7 +157,7 @@ theorem writeString_none_none {d : Dict} {s : Str} {p : Bool} (hg : d.getIndex s
     · rename_i a' ha'
       rw [ha] at ha'; cases ha'
 
-theorem writeString_jid {d : Dict} {s : Str} {p : Bool} (hg : d.getIndex s = none)
+theorem writeString_jid {d : Dict} {s : Str} {p : Bool} (hg : d.lookup s = none)
     {a : Nat} (ha : atIndex s = some a) (h1 : 1 ≤ a) :
     writeString d s p = 250 :: (writeString d (s.take a) true ++ writeString d (s.drop (a + 1)) false) := by
   rw [writeString]
@@ -151,33 +170,35 @@ theorem writeString_jid {d : Dict} {s : Str} {p : Bool} (hg : d.getIndex s = non
       rw [ha] at ha'; cases ha'
       simp [show ¬ a < 1 by omega]
 
+/-- the empty string is written in the raw 8-bit form, packed or not -/
+theorem writeBytes_nil (p : Bool) : writeBytes [] p = [252, 0] := by
+  cases p <;> rfl
+
 theorem writeString_EncStr (d : Dict) (hd : d.WF) {s : Str} (h : StrOK d s) (p : Bool) :
     ∃ t bt, writeString d s p = t :: bt ∧ EncStr d s t bt := by
   induction h generalizing p with
-  | token s i sec hA hg =>
-    obtain ⟨hne, h0, h1, h2⟩ := hA
+  | token s i sec hne hg =>
     cases sec with
     | false =>
-      have hi := getIndex_false hg
+      obtain ⟨hgi, h2⟩ := lookup_false hg
+      have hi := getIndex_false hgi
       obtain ⟨hget, hlt⟩ := indexOf?_some hi
-      rw [hi] at h0 h1 h2
-      refine ⟨i, [], ?_, EncStr.tok i s ?_ ?_ hget hne⟩
+      refine ⟨i, [], ?_, EncStr.tok i s h2 ?_ hget hne⟩
       · rw [writeString, hg]
-      · simp at h0 h1 h2; omega
       · have := hd.1; omega
     | true =>
-      have hi := getIndex_true hg
+      have hi := getIndex_true (lookup_true hg)
       obtain ⟨hget, hlt⟩ := indexOf?_some hi
       refine ⟨236 + i / 256, [i % 256], ?_, EncStr.tok2 i s ?_ hget hne⟩
       · rw [writeString, hg]
       · have := hd.2; omega
-  | plain s hA hg ha hl =>
+  | plain s hg ha hl =>
     rw [writeString_none_none hg ha]
     exact writeBytes_EncStr d hl p
-  | atFirst s hA hg ha hl =>
+  | atFirst s hg ha hl =>
     rw [writeString_none_lt hg ha (by omega)]
     exact writeBytes_EncStr d hl p
-  | jid s a hA hg ha h1 _ _ ih1 ih2 =>
+  | jid s a hg ha h1 _ _ ih1 ih2 =>
     rw [writeString_jid hg ha h1]
     obtain ⟨t1, b1, e1, r1⟩ := ih1 true
     obtain ⟨t2, b2, e2, r2⟩ := ih2 false
@@ -186,6 +207,29 @@ theorem writeString_EncStr (d : Dict) (hd : d.WF) {s : Str} (h : StrOK d s) (p :
     have := EncStr.jid _ _ _ _ _ _ r1 r2
     rw [← atIndex_split ha] at this
     exact this
+
+/-- if the dictionary offers no token for the empty string, every string shorter than 2^31 is in the encoder's domain -/
+theorem strOK_of_length (d : Dict) (hne : ∀ i sec, d.lookup [] ≠ some (i, sec)) (s : Str) (h : s.length < 2147483648) :
+    StrOK d s := by
+  induction hn : s.length using Nat.strongRecOn generalizing s with
+  | _ n ih =>
+    subst hn
+    cases hl : d.lookup s with
+    | some r =>
+      obtain ⟨i, sec⟩ := r
+      refine StrOK.token s i sec ?_ hl
+      intro hs; subst hs; exact hne i sec hl
+    | none =>
+      cases ha : atIndex s with
+      | none => exact StrOK.plain s hl ha h
+      | some a =>
+        cases a with
+        | zero => exact StrOK.atFirst s hl ha h
+        | succ a =>
+          have hlt := atIndex_lt s _ ha
+          refine StrOK.jid s (a + 1) hl ha (by omega) ?_ ?_
+          · exact ih _ (by simp [List.length_take]; omega) _ (by simp [List.length_take]; omega) rfl
+          · exact ih _ (by simp [List.length_drop]; omega) _ (by simp [List.length_drop]; omega) rfl
 
 theorem writeAttrs_EncAttrs (d : Dict) (hd : d.WF) {attrs : List (Str × Str)}
     (h : ∀ kv ∈ attrs, StrOK d kv.1 ∧ StrOK d kv.2) : EncAttrs d attrs (writeAttrs d attrs) := by
